@@ -1,6 +1,9 @@
 """F8 (C19 / C08): SSHClientProcess._collect_output empties _recv_buf[datatype] without reducing _recv_buf_len and
 without calling _maybe_resume_reading().  Failing obligation:
   C19.process.SSHClientProcess._collect_output#post(buffer-length-accounting)
+STATUS: fixed in /repo by commit 12d9355 ("collect_output() must release the buffered byte count it consumes");
+on the fixed tree this script prints "not reproduced", and both halves of the fix are needed by the contract
+(mutants removing either line are VIOLATIONs of buffer-length-accounting / flow-control-invariant).
 Run: /venv/bin/python /verif/notes/findings/c19_f8_collect_output.py
 No network: the session object is driven directly, the channel is a recording stand-in."""
 import asyncssh
